@@ -185,16 +185,13 @@ Definition wr_delegate (w : wr) (l : Z) : res (preader * wr) :=
         else if (wpos w' =? length (seg_at w' (wseg w')))%nat
         then (* shares the outer wire: wire[0:seg+1], absolute positions *)
           Ok (PW (mkwr (firstn (S (wseg w')) (wsegs w)) (wseg w) (wpos w)), w')
-        else (* fresh wire: first segment cut at startPos, last at r.pos *)
-          let mid := firstn (S (wseg w') - wseg w) (skipn (wseg w) (wsegs w)) in
-          let cut_last := match rev mid with
-                          | [] => []
-                          | lst :: r => rev (firstn (wpos w') lst :: r)
-                          end in
-          let cut := match cut_last with
-                     | [] => []
-                     | fst :: r => skipn (wpos w) fst :: r
-                     end in
+        else (* fresh wire: wire[startSeg:seg+1] with the first segment cut at startPos and the last at r.pos
+                (this branch is only reached when the range spans at least two segments) *)
+          let first := skipn (wpos w) s in
+          let middle := firstn (wseg w' - S (wseg w)) (skipn (S (wseg w)) (wsegs w)) in
+          let last := firstn (wpos w') (seg_at w' (wseg w')) in
+          let cut := if (wseg w <? wseg w')%nat then first :: middle ++ [last]
+                     else [firstn (wpos w') first] in
           Ok (PW (mkwr cut 0 0), w')
   | _ => Panic P_INDEX
   end.
